@@ -2,7 +2,7 @@
    Only pinned statements, `exact`, Examples / refutation witnesses by vm_compute, and Print Assumptions. *)
 From Coq Require Import String List NArith ZArith PArith Bool FMapPositive.
 From Sylt Require Import Syntax.Resolved Types.TyGraph Types.Tc Types.TcInv Types.SoundE0 Types.SoundE1 Types.SoundE2
-  Types.Complete1 Types.CompleteE1 Types.EraseAccept.
+  Types.Complete1 Types.CompleteE1 Types.EraseAccept Types.Reject Types.Mismatch Types.LiteralRet.
 Import ListNotations.
 Local Open Scope string_scope.
 
@@ -27,6 +27,24 @@ Proof. intros kinds g. exact (SoundE0.accepted_simply_typed kinds g (fun _ => Tr
 Theorem C02_simply_typed_sound : forall farith fneg fcmp of_int scmp e t,
   ty0 e = Some t -> exists v, eval farith fneg fcmp of_int scmp e = Some v /\ tag v = t.
 Proof. exact SoundE0.simply_typed_sound. Qed.
+
+(* a tuple or list literal returns from the function only if one of its parts does (/repo 8f8db35).  The `ret` component the
+   checker gives to a tuple / list of literals is None; so a function with a declared non-void result whose body is the
+   single definition `x := <tuple / list of literals>` does not count as returning and is rejected, in every state, TypeCtx
+   and with every fuel.  (Before the fix a made-up unknown return type made `f :: fn -> int do l := [1] end` accepted:
+   `f() + 1` is arithmetic on nil at run time -- a C02 violation found by the run probes.) *)
+Theorem C02_literal_does_not_return : forall kinds g k values sp f ctx s r s',
+  Forall is_lit values -> r_expr (afix kinds (gfix g) f) (ECollection k values sp) ctx s = Ok (r, s') -> fst r = None.
+Proof. exact LiteralRet.collection_ret_none. Qed.
+
+Theorem C02_literal_body_rejected : forall kinds g name params rty dname dvar dkind dty k values csp dsp pure fsp f ctx s,
+  is_void_ty rty = false -> Forall is_lit values -> wf s ->
+  notok (r_expr (afix kinds (gfix g) f)
+           (EFunction name params rty [SDefinition dname dvar dkind dty (ECollection k values csp) dsp] pure fsp) ctx s).
+Proof. exact LiteralRet.literal_body_rejected. Qed.
+
+Example C02_is_lit_def : forall e, is_lit e = (exists t, lit_type e = Some t /\ rigid t = true).
+Proof. reflexivity. Qed.
 
 (* C02_E1.  Beyond closed expressions: blocks `s1 .. sn e` whose statements are local definitions (`x := e`, `x :: e`,
    with or without a base-type annotation), assignments `x = e` to and reads of variables defined in the block, and
@@ -221,7 +239,25 @@ Example C02_example_tuple_rejected :
   | Err e _, Err e' _ => (e_kind e, e_kind e') | _, _ => (KExotic, KExotic) end = (KMismatch, KTupleIndexOutOfRange).
 Proof. vm_compute. reflexivity. Qed.
 
+(* f :: fn -> int do l := [1] end ; start :: fn do f() + 1 end: rejected; with a value after the definition: accepted *)
+Definition prog_lit (body : list stmt) : resolved :=
+  mkResolved [mkVar 0 "start" sp0 true Const; mkVar 1 "f" sp0 true Const; mkVar 2 "l" sp0 false Mutable]
+    [SDefinition "f" 1 Const (TImplied sp0) (EFunction "lambda" [] (TResolved BInt sp0) body false sp0) sp0;
+     SDefinition "start" 0 Const (TImplied sp0)
+       (EFunction "lambda" [] (TResolved BVoid sp0)
+          [SStatementExpression (EBinOp Add (ECall (ERead 1 sp0) [] sp0) (EInt 1 sp0) sp0) sp0] false sp0) sp0].
+Example C02_example_literal_body :
+  typecheck 40 (prog_lit [SDefinition "l" 2 Mutable (TImplied sp0) (ECollection CList [EInt 1 sp0] sp0) sp0])
+    = Err (mkErr KExotic sp0) [] /\
+  typecheck 40 (prog_lit [SDefinition "l" 2 Mutable (TImplied sp0) (ECollection CTuple [EInt 1 sp0; EStr "a" sp0] sp0) sp0])
+    = Err (mkErr KExotic sp0) [] /\
+  typecheck 40 (prog_lit [SDefinition "l" 2 Mutable (TImplied sp0) (ECollection CList [EInt 1 sp0] sp0) sp0;
+                          SStatementExpression (EInt 2 sp0) sp0]) = Ok tt.
+Proof. repeat split; vm_compute; reflexivity. Qed.
+
 Print Assumptions C02_E0.
+Print Assumptions C02_literal_does_not_return.
+Print Assumptions C02_literal_body_rejected.
 Print Assumptions C02_typed_block_accepted.
 Print Assumptions C02_accepted_block_side.
 Print Assumptions C02_E2.
